@@ -166,7 +166,9 @@ def report_pickup_request(
     :return: a pickup request report
     """
 
-    event_sim_time = next_sim.sim_time - next_sim.sim_timestep_duration_seconds
+    # the pickup is reported while the step in which it happens is being computed, i.e. before the
+    # clock is advanced: the clock reads the time of this step (as for the drop-off report)
+    event_sim_time = next_sim.sim_time
 
     geoid = vehicle.geoid
     lat, lon = h3.h3_to_geo(geoid)
